@@ -30,7 +30,7 @@ func TestMain(m *testing.M) {
 	hx.Main(m)
 }
 
-const ruleC32 = "generated concurrent programs against a real gnet.ConnectionPool listening on 127.0.0.1 (binary built with the race detector, halt on first report): 2-6 worker goroutines each run a drawn list of 3-12 operations {Connect to one of 3 raw TCP peers, raw inbound dial (optionally sending a valid frame, an oversized length prefix or garbage, optionally closing at once), Disconnect of a known / unknown address, SendMessage, BroadcastMessage, GetConnections, Size, GetConnection, SendPings, GetStaleConnections, ListeningAddress, IsMaxOutgoingDefaultConnectionsReached, peer-side close}, each preceded by a drawn pause {none, yield, 50us, 500us, 2ms}; one goroutine calls Shutdown at a drawn position while the others are still running; the pool's callbacks and the send-result channel are serviced as the daemon does; oracle: no race report, no panic, every call returns within 60 s, every strand-based call that starts after Shutdown returned yields the pool-closed error, Shutdown returns, afterwards no connection is registered (verif hook) and every peer socket has been closed by the pool; non-trivial = at least 2 workers were still issuing operations when Shutdown started and at least one connection was established; distinct by program text"
+const ruleC32 = "generated concurrent programs against a real gnet.ConnectionPool listening on 127.0.0.1 (binary built with the race detector, halt on first report): 2-6 worker goroutines each run a drawn list of 3-12 operations {Connect to one of 3 raw TCP peers, raw inbound dial (optionally sending a valid frame, an oversized length prefix or garbage, optionally closing at once), Disconnect of a known / unknown address, SendMessage, BroadcastMessage, GetConnections, Size, GetConnection, SendPings, GetStaleConnections, ListeningAddress, IsMaxOutgoingDefaultConnectionsReached, peer-side close}, each preceded by a drawn pause {none, yield, 50us, 500us, 2ms}; one goroutine calls Shutdown at a drawn position while the others are still running; the pool's callbacks and the send-result channel are serviced as the daemon does; oracle: no race report, no panic, every call returns within 20 s (a hang is reported only if the same program hangs again), every strand-based call that starts after Shutdown returned yields the pool-closed error, Shutdown returns, afterwards no connection is registered (verif hook) and every peer socket has been closed by the pool; non-trivial = at least 2 workers were still issuing operations when Shutdown started and at least one connection was established; distinct by program text"
 
 // vmsg is a wire message of the harness: a 4-byte length prefixed payload, handler counts deliveries.
 type vmsg struct {
@@ -180,6 +180,12 @@ func frame(payload []byte) []byte {
 	copy(out[4:], body)
 	return out
 }
+
+// watchdog for one program (they normally take 10-100 ms); a hang is reported only after it reproduced
+const watchdog = 20 * time.Second
+
+// once a hang has been confirmed, further hangs (the shrinker re-runs variants of the program) are not re-confirmed
+var hangConfirmed int32
 
 type outcome struct {
 	hung          string
@@ -397,14 +403,14 @@ func runProgram(p program) outcome {
 	go func() { wg.Wait(); close(fin) }()
 	select {
 	case <-fin:
-	case <-time.After(60 * time.Second):
-		out.hung = fmt.Sprintf("workers did not finish within 60 s (shutdown started=%d returned=%d)", atomic.LoadInt32(&shutdownStarted), atomic.LoadInt32(&shutdownReturned))
+	case <-time.After(watchdog):
+		out.hung = fmt.Sprintf("workers did not finish within %v (shutdown started=%d returned=%d)", watchdog, atomic.LoadInt32(&shutdownStarted), atomic.LoadInt32(&shutdownReturned))
 		return out
 	}
 	select {
 	case <-runDone:
-	case <-time.After(30 * time.Second):
-		out.hung = "Run did not return within 30 s after Shutdown returned"
+	case <-time.After(watchdog):
+		out.hung = fmt.Sprintf("Run did not return within %v after Shutdown returned", watchdog)
 		return out
 	}
 	out.connected = atomic.LoadInt64(&connected)
@@ -478,10 +484,17 @@ func TestC32_PoolConcurrency(t *testing.T) {
 		o := runProgram(p)
 		if o.hung != "" {
 			again := 0
-			for i := 0; i < 2; i++ {
-				if o2 := runProgram(p); o2.hung != "" {
-					again++
+			if atomic.LoadInt32(&hangConfirmed) == 1 {
+				again = 1
+			} else {
+				for i := 0; i < 2; i++ {
+					if o2 := runProgram(p); o2.hung != "" {
+						again++
+					}
 				}
+			}
+			if again > 0 {
+				atomic.StoreInt32(&hangConfirmed, 1)
 			}
 			if again == 0 {
 				r.Count("watchdog_not_reproduced")
